@@ -13,3 +13,7 @@ func init() {
 func init() {
 	register("C05", Rule{Name: "E3", Run: runE3}, Rule{Name: "E3.state", Run: runGlobalState}, Rule{Name: "E2.nondet", Run: runNondetSources})
 }
+
+func init() {
+	register("C06", Rule{Name: "C06.limit", Run: runC06Limit}, Rule{Name: "C06.placeholders", Run: runC06Placeholders}, Rule{Name: "C06.plaintext", Run: runC06PlainText})
+}
